@@ -66,23 +66,40 @@ theorem mem_sortI {q : IQ} {l : List IQ} : q ∈ sortI l ↔ q ∈ l := by
   | nil => simp
   | cons a r ih => simp only [List.foldr_cons, mem_insI, ih, List.mem_cons]
 
-/-- what `ExpiredIndexes` reports: a loaded builder that passed `Expired()`, or a not-loaded
-entry that passed `nilShardIsExpired`. -/
-theorem mem_expiredI {now : Int} {idxs : List XIndex} {nm : List IInfo} {q : IQ}
-    (h : q ∈ expiredI now idxs nm) :
-    (∃ x ∈ idxs, ixExpired now x.b = true ∧ q = ⟨x.iid, x.igid, x.b.endTime, x.b.duration, x.fresh⟩) ∨
-    (∃ i ∈ nm, nilShardIsExpired now i.dur i.endT = true ∧ q = ⟨i.iid, i.igid, i.endT, i.dur, true⟩) := by
+/-- what `ExpiredIndexes` reports: a loaded builder that passed `Expired()` while no shard that
+has not expired works with it, or a not-loaded entry that passed `nilShardIsExpired`. -/
+theorem mem_expiredI {now : Int} {shards : List XShard} {idxs : List XIndex} {nm : List IInfo} {q : IQ}
+    (h : q ∈ expiredI now shards idxs nm) :
+    (∃ x ∈ idxs, ixExpired now x.b = true ∧ heldLive now shards x.iid = false ∧
+      q = ⟨x.iid, x.igid, x.b.endTime, x.b.duration, x.fresh, now, false, heldOf shards x.iid⟩) ∨
+    (∃ i ∈ nm, nilShardIsExpired now i.dur i.endT = true ∧
+      q = ⟨i.iid, i.igid, i.endT, i.dur, true, now, true, heldOf shards i.iid⟩) := by
   unfold expiredI at h
-  simp only [List.mem_append, List.mem_map, List.mem_filter, Bool.and_eq_true] at h
-  rcases h with ⟨x, ⟨hx, he⟩, rfl⟩ | ⟨i, ⟨hi, _, he⟩, rfl⟩
-  · exact Or.inl ⟨x, hx, he, rfl⟩
+  simp only [List.mem_append, List.mem_map, List.mem_filter, Bool.and_eq_true, Bool.not_eq_true'] at h
+  rcases h with ⟨x, ⟨hx, he, hl⟩, rfl⟩ | ⟨i, ⟨hi, _, he⟩, rfl⟩
+  · exact Or.inl ⟨x, hx, he, hl, rfl⟩
   · exact Or.inr ⟨i, hi, he, rfl⟩
 
-theorem expiredI_sound {now : Int} {idxs : List XIndex} {nm : List IInfo} {q : IQ}
-    (h : q ∈ expiredI now idxs nm) : q.dUsed ≠ 0 ∧ q.endT + q.dUsed < now := by
-  rcases mem_expiredI h with ⟨x, _, he, rfl⟩ | ⟨i, _, he, rfl⟩
-  · exact (ixExpired_iff _ _).mp he
-  · exact (nilShardIsExpired_iff _ _ _).mp he
+theorem expiredI_sound {now : Int} {shards : List XShard} {idxs : List XIndex} {nm : List IInfo} {q : IQ}
+    (h : q ∈ expiredI now shards idxs nm) : q.dUsed ≠ 0 ∧ q.endT + q.dUsed < q.nowD ∧ q.nowD = now := by
+  rcases mem_expiredI h with ⟨x, _, he, _, rfl⟩ | ⟨i, _, he, rfl⟩
+  · exact ⟨((ixExpired_iff _ _).mp he).1, ((ixExpired_iff _ _).mp he).2, rfl⟩
+  · exact ⟨((nilShardIsExpired_iff _ _ _).mp he).1, ((nilShardIsExpired_iff _ _ _).mp he).2, rfl⟩
+
+/-- a builder of the partition is reported only when every shard object that works with it has
+itself expired, by its own duration, at that clock reading. -/
+theorem expiredI_held {now : Int} {shards : List XShard} {idxs : List XIndex} {nm : List IInfo} {q : IQ}
+    (h : q ∈ expiredI now shards idxs nm) (hn : q.fromNil = false) :
+    ∀ u ∈ q.held, u.2.2 ≠ 0 ∧ u.2.1 + u.2.2 < q.nowD := by
+  rcases mem_expiredI h with ⟨x, _, _, hl, rfl⟩ | ⟨i, _, _, rfl⟩
+  · intro u hu
+    unfold heldOf at hu
+    obtain ⟨s, hs, rfl⟩ := List.mem_map.mp hu
+    unfold heldLive at hl
+    have := (List.any_eq_false.mp hl) s hs
+    have he : shardIsExpired now s.dur s.endT = true := by simpa using this
+    exact (shardIsExpired_iff _ _ _).mp he
+  · exact absurd hn (by simp)
 
 theorem updShard_iid (infos : List SInfo) (s : XShard) : (updShard infos s).iid = s.iid := by
   unfold updShard; split
